@@ -960,8 +960,14 @@ impl Database {
 
                             let new_user_record =
                                 OwnedValue::build_record_from_values(&owned_values, &new_schema)?;
-                            let wrapped_record =
-                                wrap_record_for_insert(0, &new_user_record, false);
+                            // the tombstone of a deleted row stays a tombstone
+                            let wrapped_record = if RecordHeader::from_bytes(value).is_deleted() {
+                                let mut kept = value[..RecordHeader::SIZE].to_vec();
+                                kept.extend_from_slice(&new_user_record);
+                                kept
+                            } else {
+                                wrap_record_for_insert(0, &new_user_record, false)
+                            };
                             batch.push((key.clone(), wrapped_record));
                         }
                     }
